@@ -176,6 +176,15 @@ func reifyInto(opts *options, to reflect.Value, from *Config) Error {
 
 	switch k {
 	case reflect.Map:
+		if to.Kind() == reflect.Ptr {
+			// nil pointer(s) to a map: allocate, as is done for structs
+			m := reflect.New(tTo).Elem()
+			if err := reifyMap(opts, m, from, nil); err != nil {
+				return err
+			}
+			to.Set(pointerize(to.Type(), tTo, m))
+			return nil
+		}
 		return reifyMap(opts, to, from, nil)
 	case reflect.Struct:
 		return reifyStruct(opts, to, from)
